@@ -97,6 +97,14 @@ def _inside_grid_with_n(main_domain, domain_a, domain_b, n, params, invert, devi
     device : str
         The device on which the points should be created.
     """
+    if len(params) > 1:
+        # every parameter row gets its own grid (like the random sampling above)
+        grid = Points.empty()
+        for i in range(len(params)):
+            grid = grid | _inside_grid_with_n(
+                main_domain, domain_a, domain_b, n, params[i,], invert, device
+            )
+        return grid
     # first sample grid inside the domain_a
     grid_a = domain_a.sample_grid(n=n, params=params, device=device)
     _, repeat_params = main_domain._repeat_params(n, params)
@@ -227,6 +235,14 @@ def _boundary_grid_with_n(main_domain, domain_a, domain_b, n, params, device):
     device : str
         The device on which the points should be created.
     """
+    if len(params) > 1:
+        # every parameter row gets its own grid (like the random sampling above)
+        grid = Points.empty()
+        for i in range(len(params)):
+            grid = grid | _boundary_grid_with_n(
+                main_domain, domain_a, domain_b, n, params[i,], device
+            )
+        return grid
     # first sample a grid on both boundaries
     grid_a = domain_a.boundary.sample_grid(n=n, params=params, device=device)
     grid_b = domain_b.boundary.sample_grid(n=n, params=params, device=device)
